@@ -189,13 +189,14 @@ ghost var gFwdCtx int
 ghost var gClonedFrom int     // header map handed to cloneHeader
 ghost var gCloned int         // header map returned by cloneHeader
 ghost var gNewReqHost string  // Host that http.NewRequest derived from the URL
+ghost var gNewReqLen int      // ContentLength that http.NewRequest derived from the body it was given
 
 pred fwdURL(svr *Server, q *httpprot.Request) := svr.URL ++ q.Request.URL.Path ++ (q.Request.URL.RawQuery != "" ? "?" ++ q.Request.URL.RawQuery : "")
 
 func (spCtx *serverPoolContext) prepareRequest(svr *Server, ctx stdcontext.Context, mirror bool) (err error)
   flag allocates
   requires spCtx != nil && svr != nil && spCtx.req != nil && spCtx.req.Request != nil && spCtx.req.Request.URL != nil && spCtx.req.Request.Header != nil
-  modifies spCtx.stdReq, gFwdMethod, gFwdURL, gFwdBody, gFwdCtx, gClonedFrom, gCloned, gNewReqHost, allof("map<string,[]string>#dom"), allof("map<string,[]string>#card"), allof("map<string,[]string>#val#arr"), allof("map<string,[]string>#val#len"), allof("map<string,[]string>#val#cap"), allof("elem<string>")
+  modifies spCtx.stdReq, gFwdMethod, gFwdURL, gFwdBody, gFwdCtx, gClonedFrom, gCloned, gNewReqHost, gNewReqLen, allof("map<string,[]string>#dom"), allof("map<string,[]string>#card"), allof("map<string,[]string>#val#arr"), allof("map<string,[]string>#val#len"), allof("map<string,[]string>#val#cap"), allof("elem<string>")
   ensures err == nil ==> spCtx.stdReq != nil && fresh(spCtx.stdReq) && reqCtx(ref(spCtx.stdReq)) == ifaceVal(ctx)
   ensures err != nil ==> spCtx.stdReq == old(spCtx.stdReq)
   ensures same-method: err == nil ==> gFwdMethod == spCtx.req.Request.Method
@@ -204,6 +205,7 @@ func (spCtx *serverPoolContext) prepareRequest(svr *Server, ctx stdcontext.Conte
   ensures headers-are-a-hop-by-hop-free-copy-of-the-clients: err == nil ==> gClonedFrom == ref(spCtx.req.Request.Header) && ref(spCtx.stdReq.Header) == gCloned && gCloned != ref(spCtx.req.Request.Header)
   ensures host-kept-for-ip-servers-or-on-request: err == nil && (!svr.addrIsHostName || svr.KeepHost) ==> spCtx.stdReq.Host == spCtx.req.Request.Host
   ensures host-of-the-server-otherwise: err == nil && svr.addrIsHostName && !svr.KeepHost ==> spCtx.stdReq.Host == gNewReqHost
+  ensures declared-length-is-the-one-derived-from-the-body-sent: err == nil ==> spCtx.stdReq.ContentLength == gNewReqLen
   ensures buffered-payload-is-the-body: err == nil && spCtx.req.stream == nil && len(spCtx.req.payload) > 0 ==> rdRem[gFwdBody] == len(spCtx.req.payload)
   ensures streamed-payload-is-forwarded-as-is-but-never-mirrored: err == nil && spCtx.req.stream != nil ==> (mirror ? gFwdBody != ref(spCtx.req.stream) : gFwdBody == ref(spCtx.req.stream))
   ghost at call[1] NewRequestWithContext: gFwdMethod := method
@@ -211,6 +213,7 @@ func (spCtx *serverPoolContext) prepareRequest(svr *Server, ctx stdcontext.Conte
   ghost at call[1] NewRequestWithContext: gFwdBody := ifaceVal(body)
   ghost at call[1] NewRequestWithContext: gFwdCtx := ifaceVal(ctx)
   ghost at call[1] NewRequestWithContext: gNewReqHost := (r == nil ? "" : r.Host)
+  ghost at call[1] NewRequestWithContext: gNewReqLen := (r == nil ? 0 : r.ContentLength)
   ghost at call[1] cloneHeader: gClonedFrom := ref(in)
   ghost at call[1] cloneHeader: gCloned := ref(out)
 
@@ -279,7 +282,7 @@ func (sp *ServerPool) doHandle(attemptCtx stdcontext.Context, spCtx *serverPoolC
   requires compression-is-configured-whole: sp.proxy.compression != nil ==> sp.proxy.compression.spec != nil
   requires no-response-of-an-earlier-attempt: spCtx.resp == nil
   assume stdlib-context.DeadlineExceeded-is-a-non-nil-error: stdcontext.DeadlineExceeded != nil
-  modifies spCtx.stdReq, spCtx.stdResp, spCtx.resp, outResp, outRespTyp, gFwdMethod, gFwdURL, gFwdBody, gFwdCtx, gClonedFrom, gCloned, gNewReqHost, gLimit, gNoServer, gPrepFailed, gSendFailed, gCtxErr, gBuildFailed, gzFed, gzClosed, gBackendStatus, rdRem, limUnder, limN, allof("net/http.Response.Body"), allof("net/http.Response.ContentLength"), allof("protocols/httpprot.Response.stream"), allof("protocols/httpprot.Response.payload"), allof("filters/proxy.roundRobinLoadBalancer.counter"), allof("ghostf:filters/proxy.roundRobinLoadBalancer.cnt"), allof("map<string,[]string>#dom"), allof("map<string,[]string>#card"), allof("map<string,[]string>#val#arr"), allof("map<string,[]string>#val#len"), allof("map<string,[]string>#val#cap"), allof("elem<string>")
+  modifies spCtx.stdReq, spCtx.stdResp, spCtx.resp, outResp, outRespTyp, gFwdMethod, gFwdURL, gFwdBody, gFwdCtx, gClonedFrom, gCloned, gNewReqHost, gNewReqLen, gLimit, gNoServer, gPrepFailed, gSendFailed, gCtxErr, gBuildFailed, gzFed, gzClosed, gBackendStatus, rdRem, limUnder, limN, allof("net/http.Response.Body"), allof("net/http.Response.ContentLength"), allof("protocols/httpprot.Response.stream"), allof("protocols/httpprot.Response.payload"), allof("filters/proxy.roundRobinLoadBalancer.counter"), allof("ghostf:filters/proxy.roundRobinLoadBalancer.cnt"), allof("map<string,[]string>#dom"), allof("map<string,[]string>#card"), allof("map<string,[]string>#val#arr"), allof("map<string,[]string>#val#len"), allof("map<string,[]string>#val#cap"), allof("elem<string>")
   ensures classified: err == nil || typeIs(err, "serverPoolError")
   ensures a-streamed-body-is-the-callback-reader: streamedBodyIsTheCallbackReader(spCtx)
   ensures no-server-is-503-internalError: gNoServer ==> isSPE(err, 503, "internalError")
@@ -329,7 +332,7 @@ func (sp *ServerPool) buildResponseFromCache(spCtx *serverPoolContext) (hit bool
 
 func (sp *ServerPool) handle(ctx *context.Context, mirror bool) (result string)
   flag allocates
-  modifies allof("elem<string>"), allof("filters/proxy.roundRobinLoadBalancer.counter"), allof("ghost:.gzClosed"), allof("ghost:.gzFed"), allof("ghost:.limN"), allof("ghost:.limUnder"), allof("ghost:.rdRem"), allof("ghost:github.com/megaease/easegress/pkg/context.outResp"), allof("ghost:github.com/megaease/easegress/pkg/context.outRespTyp"), allof("ghost:github.com/megaease/easegress/pkg/filters/proxy.gAttemptResp"), allof("ghost:github.com/megaease/easegress/pkg/filters/proxy.gAttempts"), allof("ghost:github.com/megaease/easegress/pkg/filters/proxy.gBackendStatus"), allof("ghost:github.com/megaease/easegress/pkg/filters/proxy.gBuildFailed"), allof("ghost:github.com/megaease/easegress/pkg/filters/proxy.gCBWrapAt"), allof("ghost:github.com/megaease/easegress/pkg/filters/proxy.gCacheHit"), allof("ghost:github.com/megaease/easegress/pkg/filters/proxy.gCloned"), allof("ghost:github.com/megaease/easegress/pkg/filters/proxy.gClonedFrom"), allof("ghost:github.com/megaease/easegress/pkg/filters/proxy.gCtxErr#typ"), allof("ghost:github.com/megaease/easegress/pkg/filters/proxy.gCtxErr#val"), allof("ghost:github.com/megaease/easegress/pkg/filters/proxy.gDoCtx"), allof("ghost:github.com/megaease/easegress/pkg/filters/proxy.gFwdBody"), allof("ghost:github.com/megaease/easegress/pkg/filters/proxy.gFwdCtx"), allof("ghost:github.com/megaease/easegress/pkg/filters/proxy.gFwdMethod"), allof("ghost:github.com/megaease/easegress/pkg/filters/proxy.gFwdURL"), allof("ghost:github.com/megaease/easegress/pkg/filters/proxy.gInCtx"), allof("ghost:github.com/megaease/easegress/pkg/filters/proxy.gLastErr#typ"), allof("ghost:github.com/megaease/easegress/pkg/filters/proxy.gLastErr#val"), allof("ghost:github.com/megaease/easegress/pkg/filters/proxy.gLimit"), allof("ghost:github.com/megaease/easegress/pkg/filters/proxy.gNewReqHost"), allof("ghost:github.com/megaease/easegress/pkg/filters/proxy.gNoServer"), allof("ghost:github.com/megaease/easegress/pkg/filters/proxy.gPrepFailed"), allof("ghost:github.com/megaease/easegress/pkg/filters/proxy.gRetryWrapAt"), allof("ghost:github.com/megaease/easegress/pkg/filters/proxy.gSendFailed"), allof("ghost:github.com/megaease/easegress/pkg/filters/proxy.gShort"), allof("ghost:github.com/megaease/easegress/pkg/filters/proxy.gWrapCalls"), allof("map<string,[]string>#card"), allof("map<string,[]string>#dom"), allof("map<string,[]string>#val#arr"), allof("map<string,[]string>#val#cap"), allof("map<string,[]string>#val#len"), allof("net/http.Response.ContentLength"), allof("protocols/httpprot.Response.stream")
+  modifies allof("elem<string>"), allof("filters/proxy.roundRobinLoadBalancer.counter"), allof("ghost:.gzClosed"), allof("ghost:.gzFed"), allof("ghost:.limN"), allof("ghost:.limUnder"), allof("ghost:.rdRem"), allof("ghost:github.com/megaease/easegress/pkg/context.outResp"), allof("ghost:github.com/megaease/easegress/pkg/context.outRespTyp"), allof("ghost:github.com/megaease/easegress/pkg/filters/proxy.gAttemptResp"), allof("ghost:github.com/megaease/easegress/pkg/filters/proxy.gAttempts"), allof("ghost:github.com/megaease/easegress/pkg/filters/proxy.gBackendStatus"), allof("ghost:github.com/megaease/easegress/pkg/filters/proxy.gBuildFailed"), allof("ghost:github.com/megaease/easegress/pkg/filters/proxy.gCBWrapAt"), allof("ghost:github.com/megaease/easegress/pkg/filters/proxy.gCacheHit"), allof("ghost:github.com/megaease/easegress/pkg/filters/proxy.gCloned"), allof("ghost:github.com/megaease/easegress/pkg/filters/proxy.gClonedFrom"), allof("ghost:github.com/megaease/easegress/pkg/filters/proxy.gCtxErr#typ"), allof("ghost:github.com/megaease/easegress/pkg/filters/proxy.gCtxErr#val"), allof("ghost:github.com/megaease/easegress/pkg/filters/proxy.gDoCtx"), allof("ghost:github.com/megaease/easegress/pkg/filters/proxy.gFwdBody"), allof("ghost:github.com/megaease/easegress/pkg/filters/proxy.gFwdCtx"), allof("ghost:github.com/megaease/easegress/pkg/filters/proxy.gFwdMethod"), allof("ghost:github.com/megaease/easegress/pkg/filters/proxy.gFwdURL"), allof("ghost:github.com/megaease/easegress/pkg/filters/proxy.gInCtx"), allof("ghost:github.com/megaease/easegress/pkg/filters/proxy.gLastErr#typ"), allof("ghost:github.com/megaease/easegress/pkg/filters/proxy.gLastErr#val"), allof("ghost:github.com/megaease/easegress/pkg/filters/proxy.gLimit"), allof("ghost:github.com/megaease/easegress/pkg/filters/proxy.gNewReqHost"), allof("ghost:github.com/megaease/easegress/pkg/filters/proxy.gNewReqLen"), allof("ghost:github.com/megaease/easegress/pkg/filters/proxy.gNoServer"), allof("ghost:github.com/megaease/easegress/pkg/filters/proxy.gPrepFailed"), allof("ghost:github.com/megaease/easegress/pkg/filters/proxy.gRetryWrapAt"), allof("ghost:github.com/megaease/easegress/pkg/filters/proxy.gSendFailed"), allof("ghost:github.com/megaease/easegress/pkg/filters/proxy.gShort"), allof("ghost:github.com/megaease/easegress/pkg/filters/proxy.gWrapCalls"), allof("map<string,[]string>#card"), allof("map<string,[]string>#dom"), allof("map<string,[]string>#val#arr"), allof("map<string,[]string>#val#cap"), allof("map<string,[]string>#val#len"), allof("net/http.Response.ContentLength"), allof("protocols/httpprot.Response.stream")
   requires sp != nil && sp.spec != nil && sp.proxy != nil && sp.proxy.spec != nil && isLB(sp.loadBalancer.v)
   requires compression-is-configured-whole: sp.proxy.compression != nil ==> sp.proxy.compression.spec != nil
   requires ctx != nil && ctx.span != nil && ctxInput(ref(ctx)) != 0
@@ -359,7 +362,7 @@ func (sp *ServerPool) handle(ctx *context.Context, mirror bool) (result string)
   ghost at call[1] handler: gShort := err == resilience.ErrShortCircuited
   closure[1] (stdctx stdcontext.Context) (err error)
     flag allocates
-    modifies allof("elem<string>"), allof("filters/proxy.roundRobinLoadBalancer.counter"), allof("filters/proxy.serverPoolContext.resp"), allof("filters/proxy.serverPoolContext.span#typ"), allof("filters/proxy.serverPoolContext.span#val"), allof("filters/proxy.serverPoolContext.stdReq"), allof("filters/proxy.serverPoolContext.stdResp"), allof("ghost:.gzClosed"), allof("ghost:.gzFed"), allof("ghost:.limN"), allof("ghost:.limUnder"), allof("ghost:.rdRem"), allof("ghost:github.com/megaease/easegress/pkg/context.outResp"), allof("ghost:github.com/megaease/easegress/pkg/context.outRespTyp"), allof("ghost:github.com/megaease/easegress/pkg/filters/proxy.gAttemptResp"), allof("ghost:github.com/megaease/easegress/pkg/filters/proxy.gAttempts"), allof("ghost:github.com/megaease/easegress/pkg/filters/proxy.gBackendStatus"), allof("ghost:github.com/megaease/easegress/pkg/filters/proxy.gBuildFailed"), allof("ghost:github.com/megaease/easegress/pkg/filters/proxy.gCloned"), allof("ghost:github.com/megaease/easegress/pkg/filters/proxy.gClonedFrom"), allof("ghost:github.com/megaease/easegress/pkg/filters/proxy.gCtxErr#typ"), allof("ghost:github.com/megaease/easegress/pkg/filters/proxy.gCtxErr#val"), allof("ghost:github.com/megaease/easegress/pkg/filters/proxy.gDoCtx"), allof("ghost:github.com/megaease/easegress/pkg/filters/proxy.gFwdBody"), allof("ghost:github.com/megaease/easegress/pkg/filters/proxy.gFwdCtx"), allof("ghost:github.com/megaease/easegress/pkg/filters/proxy.gFwdMethod"), allof("ghost:github.com/megaease/easegress/pkg/filters/proxy.gFwdURL"), allof("ghost:github.com/megaease/easegress/pkg/filters/proxy.gInCtx"), allof("ghost:github.com/megaease/easegress/pkg/filters/proxy.gLastErr#typ"), allof("ghost:github.com/megaease/easegress/pkg/filters/proxy.gLastErr#val"), allof("ghost:github.com/megaease/easegress/pkg/filters/proxy.gLimit"), allof("ghost:github.com/megaease/easegress/pkg/filters/proxy.gNewReqHost"), allof("ghost:github.com/megaease/easegress/pkg/filters/proxy.gNoServer"), allof("ghost:github.com/megaease/easegress/pkg/filters/proxy.gPrepFailed"), allof("ghost:github.com/megaease/easegress/pkg/filters/proxy.gSendFailed"), allof("map<string,[]string>#card"), allof("map<string,[]string>#dom"), allof("map<string,[]string>#val#arr"), allof("map<string,[]string>#val#cap"), allof("map<string,[]string>#val#len"), allof("net/http.Response.ContentLength"), allof("protocols/httpprot.Response.stream")
+    modifies allof("elem<string>"), allof("filters/proxy.roundRobinLoadBalancer.counter"), allof("filters/proxy.serverPoolContext.resp"), allof("filters/proxy.serverPoolContext.span#typ"), allof("filters/proxy.serverPoolContext.span#val"), allof("filters/proxy.serverPoolContext.stdReq"), allof("filters/proxy.serverPoolContext.stdResp"), allof("ghost:.gzClosed"), allof("ghost:.gzFed"), allof("ghost:.limN"), allof("ghost:.limUnder"), allof("ghost:.rdRem"), allof("ghost:github.com/megaease/easegress/pkg/context.outResp"), allof("ghost:github.com/megaease/easegress/pkg/context.outRespTyp"), allof("ghost:github.com/megaease/easegress/pkg/filters/proxy.gAttemptResp"), allof("ghost:github.com/megaease/easegress/pkg/filters/proxy.gAttempts"), allof("ghost:github.com/megaease/easegress/pkg/filters/proxy.gBackendStatus"), allof("ghost:github.com/megaease/easegress/pkg/filters/proxy.gBuildFailed"), allof("ghost:github.com/megaease/easegress/pkg/filters/proxy.gCloned"), allof("ghost:github.com/megaease/easegress/pkg/filters/proxy.gClonedFrom"), allof("ghost:github.com/megaease/easegress/pkg/filters/proxy.gCtxErr#typ"), allof("ghost:github.com/megaease/easegress/pkg/filters/proxy.gCtxErr#val"), allof("ghost:github.com/megaease/easegress/pkg/filters/proxy.gDoCtx"), allof("ghost:github.com/megaease/easegress/pkg/filters/proxy.gFwdBody"), allof("ghost:github.com/megaease/easegress/pkg/filters/proxy.gFwdCtx"), allof("ghost:github.com/megaease/easegress/pkg/filters/proxy.gFwdMethod"), allof("ghost:github.com/megaease/easegress/pkg/filters/proxy.gFwdURL"), allof("ghost:github.com/megaease/easegress/pkg/filters/proxy.gInCtx"), allof("ghost:github.com/megaease/easegress/pkg/filters/proxy.gLastErr#typ"), allof("ghost:github.com/megaease/easegress/pkg/filters/proxy.gLastErr#val"), allof("ghost:github.com/megaease/easegress/pkg/filters/proxy.gLimit"), allof("ghost:github.com/megaease/easegress/pkg/filters/proxy.gNewReqHost"), allof("ghost:github.com/megaease/easegress/pkg/filters/proxy.gNewReqLen"), allof("ghost:github.com/megaease/easegress/pkg/filters/proxy.gNoServer"), allof("ghost:github.com/megaease/easegress/pkg/filters/proxy.gPrepFailed"), allof("ghost:github.com/megaease/easegress/pkg/filters/proxy.gSendFailed"), allof("map<string,[]string>#card"), allof("map<string,[]string>#dom"), allof("map<string,[]string>#val#arr"), allof("map<string,[]string>#val#cap"), allof("map<string,[]string>#val#len"), allof("net/http.Response.ContentLength"), allof("protocols/httpprot.Response.stream")
     requires sp != nil && sp.spec != nil && sp.proxy != nil && sp.proxy.spec != nil && isLB(sp.loadBalancer.v)
     requires compression-is-configured-whole: sp.proxy.compression != nil ==> sp.proxy.compression.spec != nil
     requires ctx != nil && ctx.span != nil && spCtx != nil && spCtx.Context == ctx && spCtx.req != nil && spCtx.req.Request != nil && spCtx.req.Request.URL != nil && spCtx.req.Request.Header != nil
@@ -391,7 +394,7 @@ func (sp *ServerPool) handle#handler(c stdcontext.Context) (err error)
   trusted
   flag locals
   flag allocates
-  modifies spCtx.stdReq, spCtx.stdResp, spCtx.resp, spCtx.span, outResp, outRespTyp, gFwdMethod, gFwdURL, gFwdBody, gFwdCtx, gClonedFrom, gCloned, gNewReqHost, gAttempts, gLastErr, gAttemptResp, gInCtx, gDoCtx, gLimit, gNoServer, gPrepFailed, gSendFailed, gCtxErr, gBuildFailed, gzFed, gzClosed, gBackendStatus, rdRem, limUnder, limN, allof("net/http.Response.Body"), allof("net/http.Response.ContentLength"), allof("protocols/httpprot.Response.stream"), allof("protocols/httpprot.Response.payload"), allof("filters/proxy.roundRobinLoadBalancer.counter"), allof("ghostf:filters/proxy.roundRobinLoadBalancer.cnt"), allof("map<string,[]string>#dom"), allof("map<string,[]string>#card"), allof("map<string,[]string>#val#arr"), allof("map<string,[]string>#val#len"), allof("map<string,[]string>#val#cap"), allof("elem<string>")
+  modifies spCtx.stdReq, spCtx.stdResp, spCtx.resp, spCtx.span, outResp, outRespTyp, gFwdMethod, gFwdURL, gFwdBody, gFwdCtx, gClonedFrom, gCloned, gNewReqHost, gNewReqLen, gAttempts, gLastErr, gAttemptResp, gInCtx, gDoCtx, gLimit, gNoServer, gPrepFailed, gSendFailed, gCtxErr, gBuildFailed, gzFed, gzClosed, gBackendStatus, rdRem, limUnder, limN, allof("net/http.Response.Body"), allof("net/http.Response.ContentLength"), allof("protocols/httpprot.Response.stream"), allof("protocols/httpprot.Response.payload"), allof("filters/proxy.roundRobinLoadBalancer.counter"), allof("ghostf:filters/proxy.roundRobinLoadBalancer.cnt"), allof("map<string,[]string>#dom"), allof("map<string,[]string>#card"), allof("map<string,[]string>#val#arr"), allof("map<string,[]string>#val#len"), allof("map<string,[]string>#val#cap"), allof("elem<string>")
   ensures short-circuit-makes-no-attempt: err == resilience.ErrShortCircuited ==> gAttempts == old(gAttempts) && spCtx.resp == old(spCtx.resp) && outResp == old(outResp)
   ensures a-streamed-body-is-the-callback-reader: err != resilience.ErrShortCircuited ==> streamedBodyIsTheCallbackReader(spCtx)
   ensures otherwise-the-outcome-of-the-last-attempt: err != resilience.ErrShortCircuited ==> gAttempts > old(gAttempts) && err == gLastErr && gAttemptResp == ref(spCtx.resp) && (spCtx.resp == nil || fresh(spCtx.resp)) && (noAnswer() ==> spCtx.resp == nil) && (spCtx.resp != nil ==> outResp == ref(spCtx.resp)) && (err == nil ==> spCtx.resp != nil) && (err == nil || typeIs(err, "serverPoolError")) && (err != nil && !noAnswer() ==> spCtx.resp != nil) && (spCtx.resp != nil ==> spCtx.resp.Response != nil)
@@ -405,4 +408,16 @@ func (sp *ServerPool) InjectResiliencePolicy(policies map[string]resilience.Poli
   requires sp != nil && sp.spec != nil
   requires policies-are-objects: forall k string :: k in policies ==> ifaceVal(policies[k]) != 0
   requires circuit-breaker-policies-passed-validation: forall k string :: k in policies && typeIs(policies[k], "*resilience.CircuitBreakerPolicy") ==> resilience.cbDomain(as(policies[k], "*resilience.CircuitBreakerPolicy"))
+
+// ---- C13 / C11: the kind's constructors (function literals of the package-level kind variable) ----
+// filters.NewSpec unmarshals the user's YAML into what DefaultSpec returns, and every generation of a pipeline
+// gets its filter from CreateInstance: both must hand out an object of their own on every call, and the
+// instance must be bound to exactly the spec it was created for
+func kind.DefaultSpec() (s filters.Spec)
+  flag allocates
+  ensures a-fresh-spec-of-this-kind: typeIs(s, "*Spec") && ifaceVal(s) != 0 && fresh(ptr(ifaceVal(s), "*Spec")) && ptr(ifaceVal(s), "*Spec").MaxIdleConns == 10240 && ptr(ifaceVal(s), "*Spec").MaxIdleConnsPerHost == 1024
+func kind.CreateInstance(spec filters.Spec) (f filters.Filter)
+  flag allocates
+  requires typeIs(spec, "*Spec")
+  ensures a-fresh-instance-bound-to-its-spec: typeIs(f, "*Proxy") && ifaceVal(f) != 0 && fresh(ptr(ifaceVal(f), "*Proxy")) && ref(ptr(ifaceVal(f), "*Proxy").spec) == ifaceVal(spec) && ref(ptr(ifaceVal(f), "*Proxy").super) == filters.specSuper(ifaceVal(spec))
 @*/
